@@ -79,15 +79,15 @@ Init == blk \in 1..NBLK /\ i = 0
 Next == i = 0 /\ i' \in { k \in 1..N : (k % NBLK) + 1 = blk } /\ UNCHANGED blk
 Spec == Init /\ [][Next]_<<blk,i>>
 
-\* prints one verdict line per case; always TRUE
-Emit == i = 0 \/ PrintT(ToJson([i |-> Cases[i].i, v |-> Verdict(Cases[i])]))
-
-\* DESIGN-level invariants (these stop TLC with a counterexample)
-DesignOK == i = 0 \/ LET v == Verdict(Cases[i]) IN
-   \A j \in 1..Len(v) : \A t \in 1..Len(v[j]) : v[j][t] \notin {"D:pyerr","D:class","D:value"}
-\* the oracle is not a single point of failure: dual numbers agree with the derivative term
-OracleOK == i = 0 \/ LET c == Cases[i] e == Unfold(c.h, Len(c.h)) IN
-   c.mode = "number" \/ \A j \in 1..Len(c.pts) :
-      (Vars(e) \subseteq DOMAIN c.pts[j]) => \A x \in Vars(e) : ValDerivAgree(e, x, c.pts[j])
-WellFormedOK == i = 0 \/ WellFormed(Unfold(Cases[i].h, Len(Cases[i].h)))
+\* ONE invariant: judge the case once, print the verdict line, check the DESIGN-level clauses
+\* (operational model = reference, no foreign Python error, oracle cross-check, well-formedness)
+Judged == i = 0 \/
+   LET c == Cases[i]
+       v == TLCEval(Verdict(c))
+       e == Unfold(c.h, Len(c.h))
+   IN /\ PrintT(ToJson([i |-> c.i, v |-> v]))
+      /\ \A j \in 1..Len(v) : \A t \in 1..Len(v[j]) : v[j][t] \notin {"D:pyerr","D:class","D:value"}
+      /\ WellFormed(e)
+      /\ c.mode = "number" \/ \A j \in 1..Len(c.pts) :
+            (Vars(e) \subseteq DOMAIN c.pts[j]) => \A x \in Vars(e) : ValDerivAgree(e, x, c.pts[j])
 =============================================================================
